@@ -129,6 +129,21 @@ def gen_scn(rng, tf=True, fill=False, ha=False, life=False, size=60):
         s = gen.tf_seconds(tfv)
         step = max(1, s // rng.choice([1, 2, 3, 4, 5, 10, 20])) if (fill or rng.random() < 0.8) else None
     stream, meta = gen.gen_stream(rng, n, step=step)
+    if ha and rng.random() < 0.15:
+        # the four Heikin-Ashi formulas are defined for ANY o/h/l/c: feeds whose close prints outside [low, high], or that give
+        # only open / close (high = low = 0, the Candle defaults) - max / min must still range over all of h, HA-open, HA-close
+        def loosen(t):
+            ts, o, h, l, c, v = t
+            r = rng.random()
+            if r < 0.25:
+                return (ts, o, h, l, round(h + abs(h - l) * rng.choice([0.5, 1, 3]) + 0.25, 4), v)
+            if r < 0.5:
+                return (ts, o, h, l, round(max(l - abs(h - l) * rng.choice([0.5, 1, 3]) - 0.25, 0.0001), 4), v)
+            if r < 0.65:
+                return (ts, o, 0.0, 0.0, c, v)
+            return t
+        stream = [loosen(t) for t in stream]
+        meta["loose_candles"] = True
     (init, chunks), shape = gen.gen_schedule(rng, n)
     scn = {"tf": tfv, "fill": bool(fill and tfv), "ha": bool(ha), "stream": stream, "init": init, "chunks": chunks,
            "life": None, "extra_passes": rng.choice([0, 0, 1, 2])}
@@ -202,7 +217,8 @@ def check_hexital_tfs(scn):
             extra["timeframe_fill"] = True
         if scn.get("htf"):
             extra["timeframe"] = scn["htf"]
-        hx = Hexital("tfs", cm.mk_candles(stream[:init]), [EMA(period=2, timeframe=tf) for tf in scn["tfs"]], **extra)
+        late = {int(i): st for i, st in (scn.get("late") or {}).items()}   # member index -> the step after which it is ADDED (add_indicator)
+        hx = Hexital("tfs", cm.mk_candles(stream[:init]), [EMA(period=2, timeframe=tf) for i, tf in enumerate(scn["tfs"]) if i not in late], **extra)
         hx.calculate()
         consumed = init
         steps = [init] + list(scn.get("chunks", []))
@@ -210,6 +226,10 @@ def check_hexital_tfs(scn):
             if j:
                 hx.append(cm.mk_candles(stream[consumed : consumed + k]))
                 consumed += k
+            for i, st in late.items():
+                if st == j:
+                    hx.add_indicator(EMA(period=2, timeframe=scn["tfs"][i]))
+                    hx.calculate()
             for key, candles in hx.get_candles().items():
                 tf = (scn.get("htf") if key == "default" else key) or None
                 want = cm.ref_resample(stream[:consumed], gen.tf_seconds(tf)) if tf else list(stream[:consumed])
@@ -257,6 +277,11 @@ def case_hexital_tfs(rng, idx, params):
         if init > 1:
             scn["chunks"] = [init - 1] + list(chunks)
             scn["init"] = 1
+    if scn.get("life") is None and not scn.get("htf") and len(tfs) >= 2 and rng.random() < 0.35:
+        # some members are registered LATER through add_indicator (their manager is then built from what the default manager holds:
+        # untrimmed, raw or recoverable - so it must still be the resampling of the whole stream)
+        steps_n = 1 + len(scn["chunks"])
+        scn["late"] = {str(i): rng.randrange(steps_n) for i in rng.sample(range(len(tfs)), rng.randint(1, len(tfs) - 1))}
     bad = check_hexital_tfs(scn)
     viol = None
     if bad:
